@@ -142,7 +142,7 @@ func replay(sys actor.ActorSystem, behaviours []behaviour, w *vtrace.Writer, st 
 		if err != nil {
 			fatal("spawn", err)
 		}
-		if !waitQuiescent(pid, 3*time.Second) {
+		if !waitQuiescent(pid, 20*time.Second) {
 			fatal("actor did not become idle after spawn")
 		}
 		s := sched.New()
@@ -324,7 +324,7 @@ func replay(sys actor.ActorSystem, behaviours []behaviour, w *vtrace.Writer, st 
 		}
 		s.FreeRun()
 		s.Join(5 * time.Second)
-		q := waitQuiescent(pid, 3*time.Second)
+		q := waitQuiescent(pid, 20*time.Second)
 		if !q {
 			st.NotIdle++
 		}
@@ -357,7 +357,7 @@ func explore(sys actor.ActorSystem, runs, nprod, nmsgs int, seed int64, w *vtrac
 		if err != nil {
 			fatal("spawn", err)
 		}
-		if !waitQuiescent(pid, 3*time.Second) {
+		if !waitQuiescent(pid, 20*time.Second) {
 			fatal("actor did not become idle after spawn")
 		}
 		s := sched.New()
@@ -517,7 +517,7 @@ func explore(sys actor.ActorSystem, runs, nprod, nmsgs int, seed int64, w *vtrac
 		}
 		s.FreeRun()
 		s.Join(5 * time.Second)
-		qd := 3 * time.Second
+		qd := 20 * time.Second
 		if mode >= 2 {
 			qd = 300 * time.Millisecond
 		}
@@ -566,7 +566,7 @@ func stress(sys actor.ActorSystem, histories, nprod, nmsgs int, seed int64, w *v
 		if err != nil {
 			fatal("spawn", err)
 		}
-		waitQuiescent(pid, 3*time.Second)
+		waitQuiescent(pid, 20*time.Second)
 		// observe ownership through the hooks, no gating
 		s := sched.New()
 		s.Control(actor.VerifSchedStateOf(pid))
@@ -662,7 +662,7 @@ func stress(sys actor.ActorSystem, histories, nprod, nmsgs int, seed int64, w *v
 			}()
 		}
 		wg.Wait()
-		qd := 3 * time.Second
+		qd := 20 * time.Second
 		if mode >= 2 {
 			qd = 300 * time.Millisecond // a stopped actor may legitimately keep undelivered messages
 		}
